@@ -34,7 +34,7 @@ def build(ctx):
     rl.drop_fn('blocking_get_effective_usd_cad_rate', why='tokio runtime wrapper')
     rl.replace("use crate::rust_decimal::{prelude::Zero, Decimal};", "use crate::rust_decimal::Decimal;", 'R1')
     rl.replace("Decimal::zero()", "Decimal::ZERO", 'R2', count=0)
-    rl.replace("for _ in 0..7 {", "for _i in 0..7 {", 'R8')
+    rl.sub(r'\bfor _ in\b', 'for _i in', 'R8')
     rl.replace("filled_rates.shrink_to_fit();", "", 'R11', required=False)
     model = Src(ctx, 'fx/model.rs').cut_tests().standard()
     model.strip_derive('DailyRate', 'Clone')
